@@ -2362,13 +2362,18 @@ impl RaftNode {
             if log_ok {
                 success = self.append_leader_entries(&ae.entries, &mut persistent);
 
-                match_index = persistent.array_len_as_log_index();
+                // Only the prefix this message vouches for (up to the last entry it
+                // carried) is known to match the leader. Entries the follower still
+                // holds beyond it may be stale leftovers of an older term and must
+                // neither be acknowledged nor committed.
+                let last_new_index = ae.prev_log_index + ae.entries.len() as u64;
+                match_index = last_new_index.min(persistent.array_len_as_log_index());
 
                 // Update commit index
                 let mut volatile = self.volatile.write();
-                if ae.leader_commit > volatile.commit_index {
-                    volatile.commit_index =
-                        ae.leader_commit.min(persistent.array_len_as_log_index());
+                let new_commit = ae.leader_commit.min(match_index);
+                if new_commit > volatile.commit_index {
+                    volatile.commit_index = new_commit;
                 }
             }
         }
